@@ -2908,10 +2908,6 @@ class x86_mn(x86_mn_base):
         # 'args_eval' is a list whose elements can be modified
         for a in args_eval:
             if x86_afs.segm in a:
-                # XXX todo hack: if only one arg, no prefix
-                if len(args_eval) == 1 and not name in ['push', 'pop']:
-                    continue
-                #print a
                 prefix.append(prefix_seg[a[x86_afs.segm]])
                 del a[x86_afs.segm]
             if x86_afs.symb in a:
